@@ -326,7 +326,7 @@ func C09(tier string) int {
 		}
 	}
 	nScripts := len(c09Scripts(tier))
-	run.Rule = fmt.Sprintf("SERVER HALF: explicit-state BFS to a fixpoint (engine of C03) over the alphabet {EHLO, NOOP, MAIL, RSET, STARTTLS, AUTH without argument, %d scripted AUTH exchanges} x 12 configurations (TLS {plaintext, STARTTLS available, implicit TLS} x AllowInsecureAuth x backend {AuthSession, plain}). AUTH exchanges: mechanisms of 1..3 rounds (+ empty/binary challenges, lower-case name, unknown mechanism) x initial response {absent, values, '=', bad base64} x per later round {values, '*', bad base64}; values in {good, bad, empty, NUL, 0xFF 0xFE, 57+ octets}. A recording sasl.Server logs every Next argument (nil vs empty distinguished); each transition is compared with the reference model: not permitted => 5xx and ZERO octets to the mechanism, needs greeting, second success impossible (503), STARTTLS erases it, failed/malformed/cancelled => unauthenticated and in command mode, 334 carries exactly the challenge, mechanism input == base64-decoding of what was sent. FAILED HANDSHAKE: STARTTLS answered 220, then the client sends octets that are not a TLS handshake (5 kinds: text, a command, a broken handshake record, an alert, an SSLv2-style header) x AllowInsecureAuth x greeted/not: the connection is still plaintext - AUTH not advertised nor accepted, zero octets to the mechanism, no TLS state visible to NewSession, STARTTLS still offered. CLIENT HALF: scripted sasl.Client x server mechanisms of 1..3 rounds x challenge kinds x responses x {success, server failure, client error at round k, Start error}, real client <-> real server: both sides log exactly the other's octets; client error => '*' sent, connection usable, still unauthenticated (a fresh AUTH succeeds); result == server's final reply; after success a second Auth gets 503.", nScripts)
+	run.Rule = fmt.Sprintf("SERVER HALF: explicit-state BFS to a fixpoint (engine of C03) over the alphabet {EHLO, NOOP, MAIL, RSET, STARTTLS, AUTH without argument, %d scripted AUTH exchanges} x 12 configurations (TLS {plaintext, STARTTLS available, implicit TLS} x AllowInsecureAuth x backend {AuthSession, plain}). AUTH exchanges: mechanisms of 1..3 rounds (+ empty/binary challenges, lower-case name, unknown mechanism) x initial response {absent, values, '=', bad base64} x per later round {values, '*', bad base64}; values in {good, bad, empty, NUL, 0xFF 0xFE, 57+ octets}. A recording sasl.Server logs every Next argument (nil vs empty distinguished); each transition is compared with the reference model: not permitted => 5xx and ZERO octets to the mechanism, needs greeting, second success impossible (503), STARTTLS erases it, failed/malformed/cancelled => unauthenticated and in command mode, 334 carries exactly the challenge, mechanism input == base64-decoding of what was sent. FAILED HANDSHAKE: STARTTLS answered 220, then the client sends octets that are not a TLS handshake (5 kinds: text, a command, a broken handshake record, an alert, an SSLv2-style header) x AllowInsecureAuth x greeted/not (and, with AllowInsecureAuth, authenticated before: still the same authenticated session, a second AUTH gets 503): the connection is still plaintext - AUTH not advertised nor accepted, zero octets to the mechanism, no TLS state visible to NewSession, STARTTLS still offered. CLIENT HALF: scripted sasl.Client x server mechanisms of 1..3 rounds x challenge kinds x responses x {success, server failure, client error at round k, Start error}, real client <-> real server: both sides log exactly the other's octets; client error => '*' sent, connection usable, still unauthenticated (a fresh AUTH succeeds); result == server's final reply; after success a second Auth gets 503.", nScripts)
 	run.Assumptions = []string{"the insecure-AUTH reply code (523) is not fixed by the statement: any 5xx is accepted", "bad base64 may be answered 4xx or 5xx"}
 	for _, pc := range cfgs {
 		alpha := c09Alphabet(pc, tier)
@@ -404,6 +404,9 @@ type C09FailedHandshake struct {
 	Garbage  []byte `json:"garbage"` // octets the client sends instead of a ClientHello
 	Insecure bool   `json:"insecure_auth"`
 	Greeted  bool   `json:"greeted"`
+	// AuthedBefore: (greeted, AllowInsecureAuth) the client authenticated before it asked for STARTTLS: the failed
+	// handshake changes nothing, the session is still the authenticated one and a second AUTH is refused (503)
+	AuthedBefore bool `json:"authed_before,omitempty"`
 }
 
 // evalC09FailedHandshake: the client answers the 220 with octets that are not a TLS handshake. The
@@ -434,6 +437,12 @@ func evalC09FailedHandshake(c C09FailedHandshake) *h.Finding {
 		if c.Greeted {
 			one("EHLO before.example")
 		}
+		if c.AuthedBefore {
+			if r := one("AUTH ONE Z29vZA=="); r.Code != 235 {
+				fail("c09-fh-auth", "AllowInsecureAuth is set but AUTH before STARTTLS was answered %s", r.String())
+				return
+			}
+		}
 		if r := one("STARTTLS"); r.Code != 220 {
 			fail("c09-fh-starttls", "STARTTLS answered %s", r.String())
 			return
@@ -460,6 +469,33 @@ func evalC09FailedHandshake(c C09FailedHandshake) *h.Finding {
 		}
 		if !strings.Contains(caps, "STARTTLS") {
 			fail("c09-fh-starttls-gone", "TLS is not active, yet STARTTLS is no longer offered: %q", r.Lines)
+		}
+		if c.AuthedBefore {
+			// same connection, same session, already authenticated: no second success, no octets to a mechanism
+			before := 0
+			for _, e := range be.Trace() {
+				if e.Kind == "Next" {
+					before++
+				}
+			}
+			ar := one("AUTH ONE Z29vZA==")
+			after, sessions := 0, 0
+			for _, e := range be.Trace() {
+				if e.Kind == "Next" {
+					after++
+				}
+				if e.Kind == "NewSession" {
+					sessions++
+				}
+			}
+			if ar.Code != 503 || after != before {
+				fail("c09-second-success", "authenticated before the failed handshake, a second AUTH afterwards was answered %s and the mechanism received %d more responses (want 503 and none)", ar.String(), after-before)
+			}
+			if sessions != 1 {
+				fail("c09-fh-sessions", "%d sessions were created, want 1 (a failed handshake does not start a new one)", sessions)
+			}
+			live.Hangup(h.TermEOF)
+			return
 		}
 		ar := one("AUTH ONE Z29vZA==")
 		nexts := 0
@@ -500,6 +536,9 @@ func c09FailedHandshakes(run *h.Run) {
 		for _, ins := range []bool{false, true} {
 			for _, gr := range []bool{true, false} {
 				cases = append(cases, C09FailedHandshake{Garbage: g, Insecure: ins, Greeted: gr})
+				if ins && gr {
+					cases = append(cases, C09FailedHandshake{Garbage: g, Insecure: ins, Greeted: gr, AuthedBefore: true})
+				}
 			}
 		}
 	}
